@@ -245,6 +245,16 @@ const c10Helpers = `App:
       i = n
     )
 
+  !view down(n <: int) -> int:
+    n -> (:
+      o = if n <= 0 then 0 else (if down(n / 2).o != -1 && down(n / 2).o + 1 > 0 then n else -1)
+    )
+
+  !view sumto(n <: int) -> int:
+    n -> (:
+      o = if n < 1 then 0 else (if sumto(n - 1).o == -1 then -1 else n + sumto(n - 1).o)
+    )
+
   !view par(xs <: sequence of int) -> set of Rec:
     xs -> (s:
       o = s % 2
@@ -425,6 +435,17 @@ func (in *c10Interp) call(e *c10Ex, args []*c10Val) *c10Val {
 	case "inc":
 		r := c10Map()
 		r.M["o"] = c10Int(args[0].I + 1)
+		return r
+	case "down":
+		// the view calls itself inside the operands of != and +: its value is n for n > 0, else 0
+		r := c10Map()
+		r.M["o"] = c10Int(max(args[0].I, 0))
+		return r
+	case "sumto":
+		// self-recursive through == and +: 1 + 2 + ... + n
+		r := c10Map()
+		n := max(args[0].I, 0)
+		r.M["o"] = c10Int(n * (n + 1) / 2)
 		return r
 	case "cat":
 		r := c10Map()
